@@ -144,6 +144,10 @@ func runCheck(id string, o opts) (code int) {
 	vd := verifDir()
 	seed, _ := strconv.Atoi(os.Getenv("VERIF_SEED"))
 	failClosed := func(msg string) int {
+		if o.noEmit {
+			fmt.Printf("FINDING %s.load undecided %s/load - :: %s\n", id, id, msg)
+			return 1
+		}
 		_ = os.MkdirAll(filepath.Join(vd, "evidence", "replay"), 0o755)
 		path := filepath.Join(vd, "evidence", "replay", id+"-checker-failure.json")
 		_ = os.WriteFile(path, []byte(fmt.Sprintf("{\n \"property\": %q,\n \"status\": \"undecided\",\n \"message\": %q\n}\n", id, msg)), 0o644)
